@@ -339,7 +339,7 @@ func (f *Frame) builtin(x *ssa.Call, b *ssa.Builtin, c *ssa.CallCommon, pos stri
 		f.closeChan(c.Args[0], pos)
 		return nil
 	case "copy":
-		f.abort("builtin copy is not modelled")
+		return f.copyOp(x, c, pos)
 	case "delete":
 		f.abort("builtin delete is not modelled")
 	}
@@ -442,4 +442,40 @@ func sortStrings(a []string) {
 			a[j], a[j-1] = a[j-1], a[j]
 		}
 	}
+}
+
+// copyOp models copy(dst, src) for slices: the first min(len(dst), len(src)) elements are overwritten.
+func (f *Frame) copyOp(x *ssa.Call, c *ssa.CallCommon, pos string) Val {
+	s := f.s
+	dt, ok := c.Args[0].Type().Underlying().(*types.Slice)
+	if !ok || isString(c.Args[1].Type()) {
+		f.abort("copy from a string is not modelled")
+	}
+	elem := dt.Elem()
+	dst := f.term(c.Args[0])
+	src := f.term(c.Args[1])
+	dLen, dRef, dOff := sliceField("s.len", dst), sliceField("s.ref", dst), sliceField("s.off", dst)
+	sLen, sRef, sOff := sliceField("s.len", src), sliceField("s.ref", src), sliceField("s.off", src)
+	n := s.freshConst("copied", "Int")
+	s.fact(eq(n, ite(app("<=", dLen, sLen), dLen, sLen)))
+	if !s.freshRefs[dRef] && !f.dry {
+		s.addObl(&Obligation{Name: s.C.Key() + "#frame(copy)", Kind: "frame", Guard: f.cur.reach, Goal: implies(app(">", n, "0"), f.writableGoal(dRef, "e:"+canonKey(elem))), Pos: pos,
+			Clause: "copy writes only into memory allocated by this call: " + f.srcExpr(x, "copy")})
+	}
+	var ls []leaf
+	leavesOf(elem, "", &ls)
+	for _, l := range ls {
+		key := joinKey("e:"+canonKey(elem), l.Path)
+		srt := sortOfType(l.Ty)
+		if srt == "" {
+			f.abort("copy: unsupported element leaf %s", l.Ty)
+		}
+		as := arrSort("Int", arrSort("Int", srt))
+		old := f.heapGet(key, as)
+		inner := s.freshConst("copyarr", arrSort("Int", srt))
+		s.fact(fmt.Sprintf("(forall ((i Int)) (! (= (select %s i) (ite (and (<= %s i) (< i (+ %s %s))) (select (select %s %s) (+ %s (- i %s))) (select (select %s %s) i))) :pattern ((select %s i))))",
+			inner, dOff, dOff, n, old, sRef, sOff, dOff, old, dRef, inner))
+		f.heapSet(key, as, app("store", old, dRef, inner))
+	}
+	return S{n, types.Typ[types.Int]}
 }
